@@ -848,6 +848,16 @@ pub fn check_c10(_case: &CaseSpec, _built: &Built, t: &RunTrace, rs: &RunSpec) -
         }
     }
     let clean = !t.interrupted(rs) && t.failed.is_empty();
+    // a call given a limit >= 1 that can never return: the limit (or a structure sized
+    // by it) blocks completion, whatever else happened in the run
+    if bound.is_some() && t.aborted.is_none() && matches!(rs.api.family(), Family::ForEach | Family::TryForEach) {
+        if let Some((seq, why)) = t.dead {
+            return Some(v(Prop::C10, "limit-blocks-completion", t.run, format!("limit {:?}, seq {seq}: {why}", rs.limit)));
+        }
+        if let Some(seq) = t.live_cap {
+            return Some(v(Prop::C10, "limit-blocks-completion", t.run, format!("limit {:?}: no return in budget (seq {seq})", rs.limit)));
+        }
+    }
     if clean && t.aborted.is_none() {
         if let Some((seq, why)) = t.dead {
             return Some(v(Prop::C10, "limit-blocks-completion", t.run, format!("seq {seq}: {why}")));
